@@ -69,3 +69,32 @@ Definition step_old (child : glob -> ctx -> glob * option err) (p : program) (g 
   : glob * ctx * option err :=
   let '(g1, c1, e) := exec child p g (set_pc c (S (c_pc c))) i in
   let '(c2, e2) := handle_catch_old c1 e in (g1, c2, e2).
+
+(* debugger.go runFrom fused with RunFromAddress under ONE fuel: every dispatched instruction costs one unit in
+   both; when the instruction was a line marker and the loop returned the debugger signal, the debugger (prompt
+   answered `continue`) calls Resume(): running := true, execution goes on at the current pc. *)
+Definition is_atline (i : instr) : bool := match i with IAtLine _ => true | _ => false end.
+
+Fixpoint run_debug_continue (fuel : nat) (p : program) (g : glob) (c : ctx) : glob * ctx * outcome :=
+  match fuel with
+  | O => (g, c, OutOfFuel)
+  | S f =>
+      if negb (c_running c) then (g, c, Finished None) else
+      match nth_error (code_of p (c_code c)) (c_pc c) with
+      | None => (g, c, Finished None)
+      | Some i =>
+          let child := fun g' c' => match run f p g' c' with
+                                     | (g'', _, Finished e) => (g'', e)
+                                     | (g'', _, OutOfFuel) => (g'', Some EOther) end in
+          match step child p g c i with
+          | ((g1, c1, _), false) => run_debug_continue f p g1 c1
+          | ((g1, c1, Some ESignalDebugger), true) =>
+              if is_atline i then run_debug_continue f p g1 (set_running c1 true)
+              else (g1, c1, Finished (Some ESignalDebugger))
+          | ((g1, c1, e), true) => (g1, c1, Finished e)
+          end
+      end
+  end.
+
+Definition run_program_debug_continue (fuel : nat) (p : program) : list Z :=
+  let '(g, _, o) := run_debug_continue fuel p init_glob (init_ctx true) in outcome_class o :: out_ints g.
